@@ -11,6 +11,7 @@ import (
 	"github.com/protolambda/ztyp/tree"
 
 	"verif/sim/refspec"
+	"verif/sim/sszmodel"
 )
 
 // Refinement against refspec, step by step: for every transition zrnt makes, the model
@@ -134,6 +135,14 @@ func (s *sim) checkBlockStep(parent *blockRec, blk *blockRec) {
 	// the declared state root is the model's root
 	if r, err := refspec.Root(spec, m); err == nil && common.Root(r) != blk.env.StateRoot {
 		s.viol("C01", "state-root-differs", fmt.Sprintf("block at slot %d: all fields agree but the roots differ (struct-form root of the model state vs zrnt tree root)", blk.slot))
+		return
+	}
+	if r, err := sszmodel.StateRoot(spec, m); err != nil {
+		s.res.Harness = "sszmodel: " + err.Error()
+		s.stop = true
+		return
+	} else if common.Root(r) != blk.env.StateRoot {
+		s.viol("C01", "state-root-differs-from-spec-schema", fmt.Sprintf("block at slot %d (%s): all fields agree with the model but hash_tree_root(model state) by the specification's schema is %x, the block zrnt produced and accepted declares %s", blk.slot, m.Fork, r, blk.env.StateRoot))
 		return
 	}
 	// and the signed block passes the model's full state_transition (proposer signature included)
